@@ -539,7 +539,9 @@ var defects = map[string][]string{
 	"c08": {"sub-insp-named-like-first-step", "sub-insp-named-like-last-step", "sub-defective-beside-good-link", "sub-ok", "sub-ok", "sub-badsig", "sub-expired", "sub-missing-link", "sub-rule-violation", "sub-unauthorised", "sub-nested", "sub-nested-defect", "sub-summary-mismatch"},
 	"c10": {"history-same-params", "history-diff-params", "history-no-params", "history-mixed", "mixed-cert-key", "mixed-cert-key", "mixed-cert-key-unsorted", "summary-byproducts", "direct-unclean",
 		"history-multi-alg", "history-multi-alg-mismatch", "history-whitespace-rule"},
-	"c09": {"case-variant-rule-earlier", "product-modified-backslash-decoy", "sha512-chain-product-modified", "escaped-pattern-product-modified", "escaped-pattern-none", "insp-rewrite-same-mtime", "product-all-removed", "require-after-consume", "none", "insp-fail", "insp-fail-255", "insp-missing", "insp-empty", "product-modified", "product-added", "product-removed",
+	"c09": {"product-added-ignorable-name-0", "product-added-ignorable-name-1", "product-added-ignorable-name-2", "product-added-ignorable-name-3",
+		"product-added-ignorable-name-4", "product-added-ignorable-name-5", "product-added-ignorable-name-6", "product-added-ignorable-name-7",
+		"product-added-ignorable-name-8", "product-added-ignorable-name-9", "product-added-ignorable-name-10", "case-variant-rule-earlier", "product-modified-backslash-decoy", "sha512-chain-product-modified", "escaped-pattern-product-modified", "escaped-pattern-none", "insp-rewrite-same-mtime", "product-all-removed", "require-after-consume", "none", "insp-fail", "insp-fail-255", "insp-missing", "insp-empty", "product-modified", "product-added", "product-removed",
 		"insp-touch-allowed", "insp-touch-disallowed", "three-inspections", "second-fails"},
 }
 
@@ -901,6 +903,17 @@ func genScenario(r *lib.Rng, focus string, idx int) *Scn {
 			sc.Expect = "reject"
 		case "insp-empty":
 			sc.Insps = []InspSpec{{Name: "insp0", Kind: "empty"}}
+			sc.Expect = "reject"
+		case "product-added-ignorable-name-0", "product-added-ignorable-name-1", "product-added-ignorable-name-2", "product-added-ignorable-name-3",
+			"product-added-ignorable-name-4", "product-added-ignorable-name-5", "product-added-ignorable-name-6", "product-added-ignorable-name-7",
+			"product-added-ignorable-name-8", "product-added-ignorable-name-9", "product-added-ignorable-name-10":
+			// one more file in the verification directory, under a name that tools like to ignore (VCS metadata, byte
+			// code, editor backups, dot files): the inspection must see it like any other file
+			names := []string{".git/hooks/post-checkout", "src/loader.pyc", "app.bin~", ".DS_Store", "node_modules/x.js",
+				"__pycache__/m.cpython-311.pyc", ".gitignore", ".hidden/evil.sh", "#autosave#", "core", "Thumbs.db"}
+			k, _ := strconv.Atoi(d[strings.LastIndex(d, "-")+1:])
+			sc.ExtraFinal = map[string]string{names[k%len(names)]: "not reported by any step\n"}
+			sc.Insps = []InspSpec{{Name: "insp0", Kind: "log"}}
 			sc.Expect = "reject"
 		case "product-modified", "product-added", "product-removed":
 			if len(sc.Insps) == 0 {
